@@ -419,7 +419,8 @@ impl FileSpec {
                         s == suffix
                     })
                 } else {
-                    true
+                    // without suffix: all files but the compressed ones
+                    path.extension().map_or(true, |ext| ext != "gz")
                 }
             })
             .filter(|path| {
